@@ -240,6 +240,14 @@ def run(ctx):
                           f.where(b, i), "%s - %s" % (fmt(A)[:80], fmt(B)[:80]))
     ctx.note("R17.7: %d unsigned subtraction(s) in %d functions reachable from background threads" % (n_usub, len(bg)))
 
+    # ---- R17.8 (= C08 R08.7) the upsert's "does the key exist" agrees with what reads report -------------------------
+    # put_or_update asserts that a request without a value only ever *updates*: whether it updates is decided by the
+    # in-place update's liveness test.  If that test disagrees with the read path (a key `get` still returns is treated as
+    # absent), a well-formed value-less upsert of a readable key panics the caller.
+    for o in ctx.own_of("c08"):
+        if o["rule"] == "R08.7":
+            ctx._add(o["status"], "R17.8", o["key"].split("|", 1)[1], o["desc"] + " [otherwise the value-missing assert of the put branch fires for a key the caller can read]", o["where"], o["detail"])
+
     # ---- R17.4 background loops --------------------------------------------------------------------------
     spawn = F.spawn_closures()
     ctx.floor("R17.4", "background thread closures", len(spawn), 3)
